@@ -374,5 +374,42 @@ PROPS["C20"] = {
     "assumptions": ["key files name distinct keys", "no crash during the in-place write of root.json"],
 }
 
+PROPS["C15"] = {
+    "package": "c15", "exe": "m_c15",
+    "rule": "scenarios of (cycles run to their end) + one interrupted cycle + two follow-ups: plain version bump 5 -> 6, with "
+            "delegated roles, with a root that rotates the online keys (step 1.9 removals), with a root that rotates the targets "
+            "key, re-served same versions, first cycle on an empty datastore; both consistent-snapshot settings (quick: 3 "
+            "scenarios, thorough: 12). The interrupted cycle runs in a child process (real client, file:// transport, one "
+            "blocking thread) under strace; a dry run lists every system call that names the datastore directory (openat, "
+            "write, fsync, rename, unlink); for EACH such call the cycle is re-run three times: SIGKILL on entry to the call, "
+            "the call failing with ENOSPC, the call failing with EIO (strace -e inject=...:when=K, the log is checked to confirm "
+            "that exactly the planned call was hit). After each interruption: every datastore file is classified (absent / "
+            "version / garbage), then on copies of the directory a cycle against a replayed older repository (all versions 3 < "
+            "5) and a cycle against the current repository are run. Non-trivial: a fault was injected.",
+    "explanation": "Theorems (Tough/Props/C15.lean): every datastore state an update cycle can leave behind when it is cut "
+                   "short after any number of datastore operations keeps the timestamp / snapshot / targets guard of C03 "
+                   "(crash_ts, crash_snap, crash_tgt: stored document of version >= v that verifies under the recorded "
+                   "root) unless the cycle saw a root change that exempts it; lifted to histories of any length in which "
+                   "any cycle may be cut short anywhere (timestamp/snapshot/targets_protected_despite_crashes); the "
+                   "truncate-then-write create of the original code is refuted by a concrete witness. Correspondence: the "
+                   "datastore the real client leaves behind is one of the model's crash states, and both follow-up cycles "
+                   "end as the model's do from that state; the property is also evaluated directly: the replay must be "
+                   "refused whenever the model refuses it from every state the interruption could have left, and the "
+                   "current repository must be accepted.",
+    "level_text": "Kernel-checked invariant over every crash point of the cycle model and every history of interrupted cycles; "
+                  "fault enumeration over every datastore system call of the real client (kill / ENOSPC / EIO).",
+    "level_note": "PARTIAL: (1) the no-lock-out half of the property (an interrupted cycle never makes the client refuse a "
+                  "repository that is at least as new) is checked by the fault enumeration on the current repository and by "
+                  "C03's `rollback_errors_mean_older`, not yet by a crash-state theorem of its own; (2) the model's create is "
+                  "atomic: that the real create (temporary file, fsync, rename) is atomic under process death and failed "
+                  "writes rests on POSIX rename semantics and is exercised, not proved; power loss (un-synced directory "
+                  "entries) is outside the model; (3) 'the datastore only changes through logged operations' is by "
+                  "inspection of the eight update sites of the model.",
+    "trusted": ["strace 6.1 fault injection (inject=SYSCALL:signal=KILL|error=E:when=K) and its log",
+                "modelled, not verified: the file system (rename replaces atomically; a failed call has no effect)"],
+    "assumptions": ["process death or a failed system call, not power loss", "one client process per datastore directory"],
+    "timeout": {"quick": 1800, "thorough": 7200},
+}
+
 _PENDING = "check under construction in this session (DESIGN.md §10 order of work); not claimed until it runs"
 NOT_APPLICABLE = {f"C{i:02d}": _PENDING for i in range(1, 21)}
